@@ -649,7 +649,7 @@ pub fn run(ctx: &mut Ctx) {
     }
     ctx.extra.insert("excluded_by_construction".into(), json!(format!("{excl:?}")));
     probe_known(ctx, &open);
-    let n = ctx.n(1500, 40_000) as usize;
+    let n = ctx.n(3000, 40_000) as usize;
     let mut discarded = 0usize;
     let mut total = 0usize;
     for feature_unimock in [false, true] {
